@@ -1,12 +1,15 @@
 package main
 
 import (
+	"bytes"
 	"context"
 	"fmt"
+	"io"
 	"sort"
 	"strings"
 
 	zed "github.com/brimdata/super"
+	"github.com/brimdata/super/api/queryio"
 	"github.com/brimdata/super/zbuf"
 	"github.com/brimdata/super/zio/zsonio"
 	"github.com/brimdata/super/zson"
@@ -121,3 +124,93 @@ func hashOf(vals []string) string {
 	}
 	return fmt.Sprintf("%016x", h)
 }
+
+// channelProtocol drives the real server-side response writer (queryio.Writer,
+// which announces a channel only when it changes) with random interleavings of
+// batches and channel ends of 2-4 channels, and reads the bytes back through the
+// real client-side scanner (queryio.NewScanner): every value must come back
+// labelled with the channel it was written to, and every channel end must be
+// delivered, whatever the interleaving.
+func channelProtocol(res *Result, rng *Rng, n int) {
+	for it := 0; it < n; it++ {
+		nch := 2 + rng.Intn(3)
+		names := []string{"main", "b", "c", "d"}[:nch]
+		open := append([]string(nil), names...)
+		type ev struct {
+			ch  string
+			end bool
+			v   int
+		}
+		var evs []ev
+		next := 0
+		for len(open) > 0 && len(evs) < 40 {
+			i := rng.Intn(len(open))
+			if rng.Intn(5) == 0 {
+				evs = append(evs, ev{ch: open[i], end: true})
+				open = append(open[:i], open[i+1:]...)
+				continue
+			}
+			next++
+			evs = append(evs, ev{ch: open[i], v: next})
+		}
+		for _, c := range open {
+			evs = append(evs, ev{ch: c, end: true})
+		}
+		var buf bytes.Buffer
+		w, err := queryio.NewWriter(nopWC{&buf}, "zng", nil, true)
+		if err != nil {
+			res.Fail(Failure{Kind: "oracle", Sig: "C19:channel-protocol:writer-error", Detail: err.Error()})
+			return
+		}
+		zctx := zed.NewContext()
+		var want []string
+		for _, e := range evs {
+			if e.end {
+				w.WhiteChannelEnd(e.ch)
+				want = append(want, "end:"+e.ch)
+				continue
+			}
+			val, _ := zson.ParseValue(zctx, fmt.Sprintf("{v:%d}", e.v))
+			w.WriteBatch(e.ch, zbuf.NewArray([]zed.Value{val}))
+			want = append(want, fmt.Sprintf("%s:{v:%d}", e.ch, e.v))
+		}
+		w.Close()
+		sc, err := queryio.NewScanner(context.Background(), io.NopCloser(bytes.NewReader(buf.Bytes())))
+		var got []string
+		if err == nil {
+			err = Safely(func() error {
+				for {
+					b, err := sc.Pull(false)
+					if err != nil {
+						return err
+					}
+					if b == nil {
+						return nil
+					}
+					if eoc, ok := b.(*zbuf.EndOfChannel); ok {
+						got = append(got, "end:"+string(*eoc))
+						continue
+					}
+					inner, label := zbuf.Unlabel(b)
+					for _, v := range inner.Values() {
+						got = append(got, label+":"+zson.FormatValue(v))
+					}
+				}
+			})
+		}
+		res.Evaluations++
+		res.Count("channel_protocol_streams")
+		res.Distinctly(strings.Join(want, " "))
+		if err != nil || strings.Join(got, " ") != strings.Join(want, " ") {
+			res.Fail(Failure{Kind: "oracle", Sig: "C19:channel-protocol:client-attributes-values-to-another-channel",
+				Detail:   fmt.Sprintf("a response written by the server-side writer as [%s] is read by the client-side scanner as [%s] (err=%v)", strings.Join(want, " "), strings.Join(got, " "), err),
+				Replay:   map[string]any{"written": want},
+				Expected: strings.Join(want, " "), Observed: strings.Join(got, " ")})
+			return
+		}
+	}
+}
+
+type nopWC struct{ io.Writer }
+
+func (nopWC) Close() error { return nil }
